@@ -28,7 +28,7 @@ pub fn cases(tier: Tier) -> Vec<Case> {
     // dim 1: parallel and coincident hyperplanes
     let g1 = TreeGen {
         k: 2,
-        preds: vec![r1(&[1.0], 0.0), r1(&[2.0], 0.0), r1(&[-1.0], 0.0), r1(&[1.0], 1.0)],
+        preds: vec![r1(&[1.0], 0.0), r1(&[2.0], -0.0), r1(&[-1.0], 0.0), r1(&[1.0], 1.0)], // (one bias is -0.0)
         terms: vec![r1(&[1.0], 0.0)],
         max_depth: 3,
         max_nodes: nn,
@@ -45,7 +45,7 @@ pub fn cases(tier: Tier) -> Vec<Case> {
     // dim 2: concurrent (through the origin), parallel, coincident up to scaling
     let g2 = TreeGen {
         k: 2,
-        preds: vec![r1(&[1.0, 0.0], 0.0), r1(&[0.0, 1.0], 0.0), r1(&[1.0, -1.0], 0.0), r1(&[1.0, 0.0], 1.0), r1(&[-2.0, 0.0], 0.0)],
+        preds: vec![r1(&[1.0, 0.0], 0.0), r1(&[0.0, 1.0], -0.0), r1(&[1.0, -1.0], 0.0), r1(&[1.0, 0.0], 1.0), r1(&[-2.0, 0.0], 0.0)], // (one bias is -0.0)
         terms: vec![r1(&[1.0, 1.0], 0.0)],
         max_depth: 3,
         max_nodes: nn,
